@@ -220,9 +220,22 @@ def _literal_iter(st):
     return subs
 
 
+def _dissolve_continue(body):
+    """`if c: continue` guard clauses at the top level of a loop body -> `if not c: <rest>` (same behaviour, no jump)"""
+    from .facts import negate
+    for k, st in enumerate(body):
+        if isinstance(st, ast.If) and not st.orelse and len(st.body) == 1 and isinstance(st.body[0], ast.Continue):
+            rest = _dissolve_continue(body[k + 1:])
+            new_if = ast.If(test=negate(copy.deepcopy(st.test)), body=rest or [ast.Pass()], orelse=[])
+            ast.copy_location(new_if, st)
+            return body[:k] + [new_if]
+    return body
+
+
 def _unrollable(st):
     if st.orelse:
         return False
+    st.body = _dissolve_continue(st.body) if any(isinstance(n, ast.Continue) for n in ast.walk(st)) and _literal_iter(st) is not None else st.body
     for n in ast.walk(st):
         if isinstance(n, (ast.Break, ast.Continue)):
             return False
@@ -250,10 +263,10 @@ def unroll_new_literal_loops(tree, ref_loops):
                 if isinstance(st, ast.For):
                     subs = _literal_iter(st)
                     txt = ast.unparse(st.iter)
-                    if subs is not None and _unrollable(st):
-                        if txt in known:
-                            known.remove(txt)      # a loop the rules know: keep it
-                        else:
+                    if subs is not None and txt in known:
+                        known.remove(txt)      # a loop the rules know: keep it as it is
+                    elif subs is not None and _unrollable(st):
+                        if True:
                             for m in subs:
                                 for b in st.body:
                                     out.append(ast.copy_location(_subst(b, m), b))
